@@ -28,6 +28,9 @@ from .. import explore, machine, observe, rebuild, spec, sweeps
 from ..indep import foreign_json, foreign_xml, json_reader, xml_reader
 from . import c02
 
+INTERACTING = [("xsi-type-on-record", "shadowed-root-prefix"), ("xsi-type-on-record", "default-ns"),
+               ("subtype-element", "shadowed-root-prefix"), ("nested-xmlns", "default-ns"),
+               ("record-array", "multi-member"), ("wrap-formal", "multi-member"), ("prefix-bundle-only", "default-ns")]
 PREFIXES = {"http://a/": "ex", "http://b/": "exb", "http://c/": "cc", "http://bn/": "bn", "http://a/b/": "ab"}
 ENVS = ("plain-prefix", "doc-and-bundle-records", "bundle-own-prefix", "plain-prefix/bundle")
 
@@ -51,7 +54,31 @@ def reference_documents(tier):
         key = repr(m)
         if key not in seen:
             seen[key] = (tag, m)
-    return list(seen.values())
+    return composite_reference_documents() + list(seen.values())
+
+
+def composite_reference_documents():
+    """hand-written reference documents with several interacting records (the sweep's are single-record)"""
+    P = json_reader.PROV
+    A, B = "http://a/", "http://b/"
+    ent = lambda l, attrs=(): (P + "Entity", A + l, tuple(attrs))
+    mem = lambda c, e: (P + "Membership", None, ((P + "collection", ("qn", A + c)), (P + "entity", ("qn", A + e))))
+    T = (P + "type", ("qn", A + "T"))
+    T2 = (P + "type", ("qn", B + "T"))
+    docs = []
+    docs.append(("composite|memberships", ((ent("c1"), ent("c2"), mem("c1", "e1"), mem("c1", "e2"), mem("c1", "e3"), mem("c2", "e4")), ())))
+    docs.append(("composite|memberships-2x2", ((mem("c1", "e1"), mem("c1", "e2"), mem("c2", "e3"), mem("c2", "e4"), mem("c3", "e5")), ())))
+    docs.append(("composite|typed-records", ((ent("r1", [T]), ent("r2", [T2, (A + "k", ("qn", B + "v"))]),
+                                             (P + "Agent", A + "ag", (T, (P + "type", ("qn", P + "Person")))),
+                                             (P + "Generation", A + "g", ((P + "entity", ("qn", A + "r1")), (P + "activity", ("qn", A + "a")), T))), ())))
+    docs.append(("composite|two-bundles", ((ent("top", [T]),),
+                                           ((A + "b1", (ent("r1", [T]), mem("c1", "e1"), mem("c1", "e2"))),
+                                            (A + "b2", (ent("r1", [T2]), (P + "Activity", A + "a", ((P + "startTime", ("dt", "2012-03-04T05:06:07+00:00", 0.0)),))))))))
+    docs.append(("composite|literals", ((ent("r1", [(A + "k", ("int", 1)), (A + "k2", ("bool", True)), (A + "k3", ("float", "1.0")),
+                                                     (A + "k4", ("lit", "bonjour", P + "InternationalizedString", "fr")),
+                                                     (A + "k4", ("str", "bonjour")), (A + "k5", ("lit", "v", B + "dt", None))]),
+                                         ent("r2", [(A + "k", ("bool", True)), (A + "k2", ("int", 1))])), ())))
+    return docs
 
 
 def canon_doc(m):
@@ -158,11 +185,17 @@ class C11(spec.Spec):
                     single.append(((dname, 0),))
                     single.append(((dname, n - 1),))
             dialects += single
-            if self.two:
-                glob_ = [d for d in single if d[0][1] is None]
+            glob_ = [d for d in single if d[0][1] is None]
+            if self.two or tag.startswith("composite"):
                 for i in range(len(glob_)):
                     for j in range(i + 1, len(glob_)):
                         dialects.append(glob_[i] + glob_[j])
+            else:
+                # pairs of deviations known to meet in one code path are always tried
+                names = {d[0][0] for d in glob_}
+                for a, b in INTERACTING:
+                    if a in names and b in names:
+                        dialects.append(((a, None), (b, None)))
             for dia in dialects:
                 try:
                     text = mod.write(m, PREFIXES, dia, default="http://a/")
@@ -532,7 +565,7 @@ def main(tier, seed):
     repo = os.environ.get("PROVMC_REPO", "/repo")
     refs = reference_documents("quick")
     if tier == "quick":
-        refs = refs[::3]
+        refs = [r for r in refs if r[0].startswith("composite")] + [r for r in refs if not r[0].startswith("composite")][::3]
     out = explore.pmap(__name__, tier, {}, "gen_case", refs, chunk=10)
     out.evaluations -= len(refs)
     jfiles = sorted(glob.glob(os.path.join(repo, "src/prov/tests/json/*.json")))
